@@ -24,6 +24,8 @@ type B struct {
 	I     []int64   `json:"i,omitempty"`
 	F     []float64 `json:"f,omitempty"`
 	Gaps  []int64   `json:"gaps,omitempty"` // batch form: gaps between the points of the batch (ns)
+	// Miss: 0 = every point carries the aggregated field, 1 = none does, 2 = every second one does not
+	Miss int `json:"miss,omitempty"`
 }
 
 func (b B) n() int {
@@ -43,9 +45,29 @@ type Case struct {
 	Unit    int64   `json:"unit,omitempty"`
 	GroupBy bool    `json:"groupby"`
 	Bs      []B     `json:"bs"`
+	// Pre is a node between the source of the batches and the aggregation: "" | where-all (passes
+	// everything) | where-half (drops the points with odd "w") | eval (adds a field)
+	Pre string `json:"pre,omitempty"`
+	// Win (stream only): the points go through window().periodCount(Win[0]).everyCount(Win[1])
+	// first, so the aggregation sees (overlapping, for every < period) batches
+	Win *[2]int `json:"win,omitempty"`
+}
+
+// batchEdges: the aggregation is fed batches (batch task, or stream task through a window).
+func (c Case) batchEdges() bool { return !c.Stream || c.Win != nil }
+
+// LB is one logical batch the aggregation works on: the field values of the points that carry the
+// field (and passed the where node), and the batch's end time.
+type LB struct {
+	G     int
+	Float bool
+	Run   []pv
+	TMax  int64
+	N     int // points in the batch before the field/where filter
 }
 
 const rule = "rapid: aggregation function (count sum mean median mode min max first last spread stddev distinct percentile top bottom elapsed difference cumulativeSum movingAverage) x as()/usePointTimes/arguments x batches or equal-time runs of int/float values (duplicates, negatives, |v|>2^53, type changing between batches, empty batches); " +
+	"optionally: a where (all / every second point passes) or eval node before the aggregation, points without the field (all / every second of a batch), a count window (period 1-6, every 1-6: overlapping when every < period) between the stream and the aggregation; " +
 	"non-trivial = some batch has >=2 points with >=2 distinct values; distinct by case hash"
 
 const sec = int64(1e9)
@@ -88,6 +110,10 @@ func gen(t *rapid.T) Case {
 		c.Unit = rapid.SampledFrom([]int64{1, 1e6, sec, 7}).Draw(t, "unit")
 	}
 	c.GroupBy = rapid.Bool().Draw(t, "groupby")
+	c.Pre = rapid.SampledFrom([]string{"", "", "", "where-all", "where-half", "eval"}).Draw(t, "pre")
+	if c.Stream && rapid.Bool().Draw(t, "window") {
+		c.Win = &[2]int{rapid.IntRange(1, 6).Draw(t, "periodCount"), rapid.IntRange(1, 6).Draw(t, "everyCount")}
+	}
 	groups := 1
 	if c.GroupBy {
 		groups = rapid.IntRange(1, 3).Draw(t, "groups")
@@ -103,9 +129,10 @@ func gen(t *rapid.T) Case {
 	for i := 0; i < nb; i++ {
 		b := B{G: rapid.IntRange(0, groups-1).Draw(t, "g")}
 		b.Float = rapid.Bool().Draw(t, "float")
-		if c.Stream && isTransform(c.Fn) {
+		if c.Stream && isTransform(c.Fn) || c.Win != nil {
 			b.Float = groupFloat[b.G]
 		}
+		b.Miss = rapid.SampledFrom([]int{0, 0, 0, 0, 0, 1, 2}).Draw(t, "miss")
 		lo := 0
 		if c.Stream {
 			lo = 1
@@ -143,6 +170,17 @@ func (c Case) script() string {
 	}
 	if c.GroupBy {
 		s.WriteString(".groupBy('host')")
+	}
+	if c.Win != nil {
+		fmt.Fprintf(&s, "|window().periodCount(%d).everyCount(%d)", c.Win[0], c.Win[1])
+	}
+	switch c.Pre {
+	case "where-all":
+		s.WriteString(`|where(lambda: "w" >= 0)`)
+	case "where-half":
+		s.WriteString(`|where(lambda: "w" % 2 == 0)`)
+	case "eval":
+		s.WriteString(`|eval(lambda: "w" + 1).as('w2').keep()`)
 	}
 	switch c.Fn {
 	case "percentile":
@@ -192,9 +230,16 @@ type pv struct {
 }
 
 // materialise builds the inputs: batches (batch form) or points (stream form) in feed order, and
-// per input batch/run the typed values with their times.
-func (c Case) materialise() (pts []kit.Pt, bts []kit.Bt, runs [][]pv) {
+// the logical batches the aggregation works on (per input batch / equal-time run / window) with
+// the typed values of the points that carry the field and pass the where node.
+func (c Case) materialise() (pts []kit.Pt, bts []kit.Bt, lbs []LB) {
 	lastT := map[int]int64{}
+	type wp struct {
+		p    pv
+		keep bool
+	}
+	received := map[int][]wp{} // window form: the group's points so far
+	tw := t0
 	for k, b := range c.Bs {
 		host := fmt.Sprintf("h%d", b.G)
 		start := t0 + int64(k)*10*sec
@@ -215,6 +260,10 @@ func (c Case) materialise() (pts []kit.Pt, bts []kit.Bt, runs [][]pv) {
 				// InfluxQL transformations are defined over series with unique timestamps
 				t++
 			}
+			if c.Win != nil {
+				tw += sec
+				t = tw
+			}
 			var fv kit.FV
 			p := pv{t: t}
 			if b.Float {
@@ -225,13 +274,38 @@ func (c Case) materialise() (pts []kit.Pt, bts []kit.Bt, runs [][]pv) {
 				p.i, p.f = b.I[j], float64(b.I[j])
 			}
 			p.v = fv
-			run = append(run, p)
 			tags := map[string]string{"host": host, "o": fmt.Sprintf("o%d", j%2)}
 			fields := map[string]kit.FV{"v": fv, "w": kit.I(int64(j))}
+			has := !(b.Miss == 1 || b.Miss == 2 && j%2 == 1)
+			if !has {
+				delete(fields, "v")
+				fields["u"] = fv
+			}
+			keep := has && !(c.Pre == "where-half" && j%2 == 1)
+			if keep {
+				run = append(run, p)
+			}
 			if c.Stream {
 				pts = append(pts, kit.Pt{Name: "m", Tags: tags, Fields: fields, Time: t})
 			} else {
 				bt.Points = append(bt.Points, kit.Pt{Tags: tags, Fields: fields, Time: t})
+			}
+			if c.Win != nil {
+				// window().periodCount(P).everyCount(E): after every E-th point of the group, its last min(n, P) points
+				received[b.G] = append(received[b.G], wp{p, keep})
+				if n := len(received[b.G]); n%c.Win[1] == 0 {
+					m := c.Win[0]
+					if n < m {
+						m = n
+					}
+					lb := LB{G: b.G, Float: b.Float, TMax: t, N: m}
+					for _, x := range received[b.G][n-m:] {
+						if x.keep {
+							lb.Run = append(lb.Run, x.p)
+						}
+					}
+					lbs = append(lbs, lb)
+				}
 			}
 		}
 		lastT[b.G] = t
@@ -240,7 +314,16 @@ func (c Case) materialise() (pts []kit.Pt, bts []kit.Bt, runs [][]pv) {
 			bt.TMax = start
 		}
 		bts = append(bts, bt)
-		runs = append(runs, run)
+		if c.Win == nil {
+			if c.Stream && len(run) == 0 {
+				continue // stream form: no point with the field, no run
+			}
+			lb := LB{G: b.G, Float: b.Float, Run: run, TMax: bt.TMax, N: b.n()}
+			if c.Stream {
+				lb.TMax = run[0].t
+			}
+			lbs = append(lbs, lb)
+		}
 	}
 	return
 }
@@ -487,7 +570,7 @@ func (o out) accepts(v kit.FV, t int64) string {
 // ---------------------------------------------------------------- run
 
 func run(c Case, cc *kit.Case) {
-	pts, bts, runs := c.materialise()
+	pts, bts, lbs := c.materialise()
 	script := c.script()
 	cc.Label("fn:" + c.Fn)
 	if c.Stream {
@@ -497,7 +580,7 @@ func run(c Case, cc *kit.Case) {
 	}
 	typeChange, empty, nt := false, false, false
 	lastType := map[int]int{}
-	for k, b := range c.Bs {
+	for _, b := range lbs {
 		ty := 1
 		if b.Float {
 			ty = 2
@@ -506,16 +589,31 @@ func run(c Case, cc *kit.Case) {
 			typeChange = true
 		}
 		lastType[b.G] = ty
-		if b.n() == 0 {
+		if len(b.Run) == 0 {
 			empty = true
+			if b.N > 0 {
+				cc.Label("batch-without-field-values")
+			}
+		} else if len(b.Run) < b.N {
+			cc.Label("batch-with-some-points-without-value")
 		}
 		d := map[kit.FV]bool{}
-		for _, p := range runs[k] {
+		for _, p := range b.Run {
 			d[p.v] = true
 		}
 		if len(d) >= 2 {
 			nt = true
 		}
+	}
+	if c.Win != nil {
+		if c.Win[1] < c.Win[0] {
+			cc.Label("overlapping-windows")
+		} else {
+			cc.Label("window")
+		}
+	}
+	if c.Pre != "" {
+		cc.Label("pre:" + c.Pre)
 	}
 	if typeChange {
 		cc.Label("type-change-between-batches")
@@ -619,25 +717,22 @@ func run(c Case, cc *kit.Case) {
 	exp := map[string][]expItem{}
 	streamSeq := map[int][]pv{} // stream transformations: the group's whole sequence
 	maxAbs := map[int]float64{}
-	for k, b := range c.Bs {
-		run := runs[k]
+	for _, b := range lbs {
+		run := b.Run
 		local := 0.0
 		for _, p := range run {
 			maxAbs[b.G] = math.Max(maxAbs[b.G], math.Abs(p.f))
 			local = math.Max(local, math.Abs(p.f))
 		}
 		scale := local
-		if c.Stream && isTransform(c.Fn) {
+		if !c.batchEdges() && isTransform(c.Fn) {
 			scale = maxAbs[b.G]
 		}
 		gid := groupID(b.G)
-		tb := bts[k].TMax
-		if c.Stream {
-			tb = run[0].t
-		}
+		tb := b.TMax
 		switch {
 		case isTransform(c.Fn):
-			if c.Stream {
+			if !c.batchEdges() {
 				before := len(c.transform(streamSeq[b.G], b.Float))
 				streamSeq[b.G] = append(streamSeq[b.G], run...)
 				all := c.transform(streamSeq[b.G], b.Float)
@@ -687,7 +782,7 @@ func run(c Case, cc *kit.Case) {
 			}
 		}
 	}
-	if c.Stream && !isTransform(c.Fn) {
+	if !c.batchEdges() && !isTransform(c.Fn) {
 		// nothing marks the end of the last run of a group: it may be absent
 		for gid := range exp {
 			exp[gid][len(exp[gid])-1].last = true
@@ -800,6 +895,7 @@ var assumptions = []string{
 	"a batch holds one field type; the type may change between batches (and between equal-time runs in stream form); stream transformations see one field type per group",
 	"selectors (first last min max percentile) may carry the selected point's own tags and other fields; all other functions emit exactly the field named by as() and the group's tags",
 	"stream form: the output for the last equal-time run of a group may be absent (nothing marks its end)",
+	"a point that lacks the aggregated field contributes no value (it is reported and skipped); a batch none of whose points carries the field is an empty batch; window().periodCount(P).everyCount(E) emits after every E-th point of a group its last min(n, P) points, stamped with the last one's time (C03's subject)",
 	"usePointTimes is generated for selectors and top/bottom only (what the property names)",
 	"elapsed/difference/cumulativeSum/movingAverage see strictly increasing timestamps per group (an InfluxQL series has unique timestamps; the reducers skip a point that does not advance time)",
 }
